@@ -53,10 +53,12 @@ class BuildError(Exception):
 
 
 def build_nc(notes, bpm=None):
-    from vlib.ref import rvalues  # noqa
     if notes is None:
         return None
-    nc = NoteContainer([Note(n[0], n[1], channel=n[2], velocity=n[3]) for n in notes])
+    try:
+        nc = NoteContainer([Note(n[0], n[1], channel=n[2], velocity=n[3]) for n in notes])
+    except Exception as e:  # noqa
+        raise BuildError("cannot build container %r: %r" % (notes, e))
     if len(nc) != len(notes):
         raise BuildError("container dropped notes: %r" % (notes,))
     if bpm is not None:
@@ -66,9 +68,17 @@ def build_nc(notes, bpm=None):
 
 def build_bar(bd):
     from vlib.ref import rvalues as RV
-    b = Bar(bd["key"], (bd["meter"][0], bd["meter"][1]))
+    try:
+        b = Bar(bd["key"], (bd["meter"][0], bd["meter"][1]))
+    except Exception as e:  # noqa
+        raise BuildError("cannot build bar %r %r: %r" % (bd["key"], bd["meter"], e))
     for e in bd["entries"]:
-        if not b.place_notes(build_nc(e["notes"], e.get("bpm")), RV.number(e["v"])):
+        nc = build_nc(e["notes"], e.get("bpm"))
+        try:
+            ok = b.place_notes(nc, RV.number(e["v"]))
+        except Exception as ex:  # noqa
+            raise BuildError("place_notes raised %r" % (ex,))
+        if not ok:
             raise BuildError("bar refused entry %r in %r" % (e, bd["meter"]))
     return b
 
